@@ -272,7 +272,7 @@ theorem quiet_step {c c' : Chan} {ev : Ev} {ms : List Msg} {os : List Out} (hq :
     obtain ⟨rfl, _⟩ := h1
     exact ⟨hq.closed, hq.empty, Or.inl rfl⟩
   | close =>
-    obtain ⟨c1, hc1, hc2⟩ := step_close_ok h
+    obtain ⟨c1, ms1, hc1, hc2⟩ := step_close_ok h
     have hc1' : c1 = c := by
       rcases hc1 with ⟨h1, h2, _⟩ | ⟨_, h1, _⟩
       · rcases hq.closed with h3 | h3
@@ -280,7 +280,7 @@ theorem quiet_step {c c' : Chan} {ev : Ev} {ms : List Msg} {os : List Out} (hq :
         · exact absurd h3 h2
       · exact h1
     subst hc1'
-    rcases hc2 with ⟨_, rfl, rfl⟩ | ⟨_, rfl, rfl⟩
+    rcases hc2 with ⟨_, rfl, _, rfl⟩ | ⟨_, rfl, _, rfl⟩
     · have ds := discardRecv_spec c1
       refine ⟨by rw [ds.sendState]; exact hq.closed, ds.recvBuf, ?_⟩
       rcases ds.fired with ⟨h1, _⟩ | ⟨h1, _⟩
@@ -320,11 +320,12 @@ theorem quiet_step {c c' : Chan} {ev : Ev} {ms : List Msg} {os : List Out} (hq :
         · split at h
           · cases h
           · simp only [Except.ok.injEq] at h
-            have hd : acceptData c bs dt = (c, [], []) := by
+            have hd : ∃ ms0, acceptData c bs dt = (c, ms0, []) := by
               unfold acceptData
               split
-              · rfl
-              · rw [if_pos hq.closed]
+              · exact ⟨[], rfl⟩
+              · rw [if_pos hq.closed]; exact ⟨_, rfl⟩
+            obtain ⟨ms0, hd⟩ := hd
             rw [hd] at h
             simp only [Prod.mk.injEq] at h
             obtain ⟨rfl, _, rfl⟩ := h
@@ -364,7 +365,7 @@ theorem quiet_step {c c' : Chan} {ev : Ev} {ms : List Msg} {os : List Out} (hq :
 theorem close_quiet {c c' : Chan} {ms : List Msg} {os : List Out} (hw : WF c) (hr : c.recvState ≠ .closed)
     (h : step c .close = .ok (c', ms, os)) : QuietC c' ∧ OutTail os := by
   have hwf' : WF c' := step_wf c c' .close ms os hw h
-  obtain ⟨c1, hc1, hc2⟩ := step_close_ok h
+  obtain ⟨c1, ms1, hc1, hc2⟩ := step_close_ok h
   have hs1 : (c1.sendState = .closePending ∨ c1.sendState = .closed) ∧ c1.recvState = c.recvState := by
     rcases hc1 with ⟨_, hnc, hf⟩ | ⟨h1, rfl, _⟩
     · have hop : c.sendChanOpen = true := hw.s.chanOpen.mpr hnc
@@ -377,7 +378,7 @@ theorem close_quiet {c c' : Chan} {ms : List Msg} {os : List Out} (hw : WF c) (h
       · cases h2
       · exact Or.inr h2
     · exact ⟨h1, rfl⟩
-  rcases hc2 with ⟨_, rfl, rfl⟩ | ⟨h2, _, _⟩
+  rcases hc2 with ⟨_, rfl, _, rfl⟩ | ⟨h2, _, _, _⟩
   · have ds := discardRecv_spec c1
     refine ⟨⟨hwf', by rw [ds.sendState]; exact hs1.1, ds.recvBuf⟩, ?_⟩
     rcases ds.fired with ⟨h1, _⟩ | ⟨h1, _⟩
